@@ -139,8 +139,14 @@ Definition pline (sh : list nat) (lo : plocal) : act (list nat) plocal :=
   end.
 Definition pstart (code : list Z) (name : nat -> nat) (t : nat) : plocal := mkPL (name t) code None [].
 (* the code is what the model understands: own entry first, then ONE pass over the map, then the return *)
+Fixpoint zlist_eqb (a b : list Z) : bool :=
+  match a, b with
+  | [], [] => true
+  | x :: r, y :: s => Z.eqb x y && zlist_eqb r s
+  | _, _ => false
+  end.
 Definition props_code_ok (code : list Z) : bool :=
-  match code with [0%Z; 1%Z; 2%Z; 3%Z] => true | [0%Z; 1%Z; 3%Z] => true | _ => false end.
+  (zlist_eqb code [0%Z; 1%Z; 2%Z; 3%Z] || zlist_eqb code [0%Z; 1%Z; 3%Z])%bool.
 
 (* ================================================================================================================ *)
 (* C. S3ChunkStore._verified_buckets                                                                                 *)
